@@ -80,6 +80,14 @@
 //!              patterns (an `if` chain), arithmetic in `const` initialisers (exact: evaluated by the compiler),
 //!              `i32::to_le_bytes`; a variable holding a `&mut` reference / cursor that is passed as a bare call
 //!              argument counts as assigned (it is threaded through the enclosing loop / branch)
+//!   stage 6    manifest `StructIgnore(name, fields)`: the struct without the IGNORED fields — an assignment to an ignored
+//!              field, a method call on it, a `let` of a value computed from ignored fields / floats and an `if` whose
+//!              condition reads them and whose branches only write them are DROPPED (their translatable operands are
+//!              still evaluated for their panics); any other read of an ignored field is a TRANSLATE-ERROR;
+//!              `fn f<I: Into<T>>(x: I)` (`x` is a `T`, `x.into()` the identity); `map.insert(k, v)` as a value;
+//!              `assert!`; `if let Some(x) = map.get_mut(&k) {..} else ..` (alias); a `Result` call inspected by the
+//!              caller (`if let Err(e) = f(..)`, `match f(..) { Ok(x) => .., Err(e) => .. }`: `Exec.attempt`, the `&mut`
+//!              state is written back after `Ok` AND after `Err`)
 //!   not supported: `loop`, valued `break`, closures, generics, traits, signed integers, floats,
 //!              references stored in data, `ref mut`, `&mut` parameters other than `self`, unsigned integers and the
 //!              octets / io cursors.
@@ -265,6 +273,7 @@ fn sel_text(s: &manifest::Sel) -> String {
         Const(n) => format!("const {}", n),
         Struct(n) => format!("struct {}", n),
         StructView(n, f) => format!("struct {} (view: {})", n, f.join(", ")),
+        StructIgnore(n, f) => format!("struct {} (ignored fields: {})", n, f.join(", ")),
         Enum(n) => format!("enum {}", n),
         Fn(n) => format!("fn {}", n),
         Method(t, n) => format!("fn {}::{}", t, n),
